@@ -6,6 +6,8 @@ package remx
 import (
 	"context"
 	"fmt"
+	"hash/fnv"
+	"sort"
 	"strings"
 
 	"deps.dev/util/resolve"
@@ -13,6 +15,7 @@ import (
 	"deps.dev/util/semver"
 	"github.com/google/osv-scalibr/extractor"
 	"github.com/google/osv-scalibr/guidedremediation"
+	"github.com/google/osv-scalibr/guidedremediation/upgrade"
 	"github.com/ossf/osv-schema/bindings/go/osvschema"
 )
 
@@ -134,4 +137,50 @@ func (s VulnSpec) OSV(eco string, table []string) *osvschema.Vulnerability {
 // Affects evaluates a spec on a rank with the real predicate.
 func Affects(v *osvschema.Vulnerability, sys resolve.System, name, version string) bool {
 	return guidedremediation.VerifIsAffected(v, sys, name, version)
+}
+
+// ConfigFor builds the upgrade.Config of a case.  For about half of the cases (chosen by a hash of `seed`, the case's own text, so a
+// replay takes the same route) it goes through the textual entry point upgrade.NewConfigFromStrings — the CLI's --upgrade-config —
+// with one "name:level" string per package (Maven names carry a colon of their own), the default level as a bare word or ":word",
+// and, now and then, an earlier entry for the same package that the later one must overwrite and an entry with an unknown level word
+// that must be ignored.  Otherwise (and for levels outside the four named ones) Config.Set.  Both routes mean the same configuration.
+func ConfigFor(seed string, levels map[string]int) upgrade.Config {
+	h := fnv.New32a()
+	h.Write([]byte(seed))
+	x := h.Sum32()
+	words := []string{"major", "minor", "patch", "none"}
+	textual := x%2 == 0
+	for _, l := range levels {
+		if l < 0 || l > 3 {
+			textual = false
+		}
+	}
+	if !textual {
+		cfg := upgrade.NewConfig()
+		for k, v := range levels {
+			cfg.Set(k, upgrade.Level(v))
+		}
+		return cfg
+	}
+	var names []string
+	for k := range levels {
+		names = append(names, k)
+	}
+	sort.Strings(names)
+	var strs []string
+	for i, k := range names {
+		l := levels[k]
+		if (x>>2)%3 == 0 {
+			strs = append(strs, k+":"+words[(l+1+i)%4]) // overwritten below
+		}
+		if k == "" && (x>>4)%2 == 0 {
+			strs = append(strs, words[l])
+		} else {
+			strs = append(strs, k+":"+words[l])
+		}
+		if (x>>5)%4 == 0 {
+			strs = append(strs, k+":latest") // not a level: ignored
+		}
+	}
+	return upgrade.NewConfigFromStrings(strs)
 }
